@@ -1175,8 +1175,8 @@ func judgeSWR(r *Run, j *Judged, c *cls) {
 	if c.reqCC.has("max-stale") || c.reqCC.has("only-if-cached") || c.reqCC.has("no-cache") || c.reqCC.has("max-age") || c.reqCC.has("min-fresh") {
 		return // another rule may have allowed / decided it
 	}
-	if scc.has("must-revalidate") || scc.has("no-cache") {
-		return
+	if v, nc := scc["no-cache"]; scc.has("must-revalidate") || (nc && v == "") {
+		return // (a qualified no-cache only withholds fields)
 	}
 	r.probe("swr-served")
 	// answered at once: the foreground spends no virtual time beyond its own store operations
@@ -1207,7 +1207,30 @@ func judgeSWR(r *Run, j *Judged, c *cls) {
 	}
 	// (which exact values are in the store can depend on races between concurrent background validations;
 	// that validators the origin really sent are used is C02's validation-request rule)
-	if (et != "" || lm != "") && u.Req.Header.Get("If-None-Match") == "" && u.Req.Header.Get("If-Modified-Since") == "" {
+	// exact validators are demanded only if, since B was obtained, no two validations of this resource ever
+	// overlapped (each works on its own copy of the entry: whose merge ends up stored is then a race)
+	exact := !r.clientConditionalSince(c.B, e.SeqInv)
+	var since []*UpCall
+	for _, o := range r.Calls {
+		if o != u && o.Res == u.Res && o.SeqStart > c.B.SeqResp && o.SeqStart < u.SeqStart {
+			since = append(since, o)
+		}
+	}
+	for i, a := range since {
+		if !a.Ended || r.lastSeqOfLineage(a) > e.SeqInv {
+			exact = false
+		}
+		for _, b := range since[i+1:] {
+			if b.SeqStart < r.lastSeqOfLineage(a) {
+				exact = false
+			}
+		}
+	}
+	unconditional := (et != "" || lm != "") && u.Req.Header.Get("If-None-Match") == "" && u.Req.Header.Get("If-Modified-Since") == ""
+	if exact && ((et != "" && u.Req.Header.Get("If-None-Match") != et) || (lm != "" && u.Req.Header.Get("If-Modified-Since") != lm)) {
+		unconditional = true
+	}
+	if unconditional {
 		j.fail("C20", "revalidation-count", e, "unconditional", "background revalidation is not conditional on the stored validators: stored ETag=%q Last-Modified=%q, sent If-None-Match=%q If-Modified-Since=%q", et, lm, u.Req.Header.Get("If-None-Match"), u.Req.Header.Get("If-Modified-Since"))
 	}
 	// timeout: when the origin does not answer, the call is cancelled at spawn+T
